@@ -701,7 +701,18 @@ fn scenario_c13(p: Params, path: String) {
                     probe("holder_grew_the_file");
                 }
                 drop(mb);
-                tx.commit().map_err(|e| e.to_string())
+                tx.commit().map_err(|e| e.to_string())?;
+                if hold {
+                    // keep using the database after the (possibly growing) commit: whatever kept
+                    // the lock until now must still keep it
+                    yield_point();
+                    let tx = db.tx(false).map_err(|e| e.to_string())?;
+                    let ok = tx.get_bucket("markers").ok().map(|b| b.get(format!("opener{}", o)).is_some()).unwrap_or(false);
+                    if !ok {
+                        return Err(format!("opener {} does not see the marker it has just committed", o));
+                    }
+                }
+                Ok(())
             });
             match r {
                 Ok(Ok(())) => {}
